@@ -197,6 +197,17 @@ Definition resolve_pkh (pkh_of : N -> N) (a : pinput) (h : N) : option N :=
   | None => find_key pkh_of h (i_psigs a)
   end.
 
+(* the same for a tap leaf (x-only keys; since /repo f4ee52fc): PsbtInputSatisfier's
+   lookup_raw_pkh_x_only_pk searches the keys of tap_key_origins, then the keys of
+   tap_script_sigs.  A tap_script_sigs key is the pair (x-only key, leaf hash); [xonly_of]
+   projects its identifier to the key's. *)
+Definition resolve_pkh_tap (pkh_of xonly_of : N -> N) (a : pinput) (h : N) : option N :=
+  match find_key pkh_of h (i_taporigins a) with
+  | Some k => Some k
+  | None => option_map (fun kv => xonly_of (fst kv))
+                       (find (fun kv => (pkh_of (xonly_of (fst kv)) =? h)%N) (i_tapsigs a))
+  end.
+
 Definition txout_eqb (a b : txout) : bool := (to_val a =? to_val b)%N && (to_spk a =? to_spk b)%N.
 
 (* the `expected_spk` block of update_input_with_descriptor; None = UtxoCheck *)
